@@ -80,6 +80,10 @@ def main():
                     continue
                 r = sh('git -C %s show %s -- src | git -C %s apply -R' % (REPO, commit, TARGET['dir']))
                 if r.returncode != 0:
+                    # a later fix touched a neighbouring line: retry with one line of context
+                    sh('git -C %s checkout -- .' % TARGET['dir'])
+                    r = sh('git -C %s show %s -- src | git -C %s apply -R -C1' % (REPO, commit, TARGET['dir']))
+                if r.returncode != 0:
                     results.append({'mutant': 'revert ' + commit, 'error': r.stderr[-300:]})
                     sh('git -C %s checkout -- .' % TARGET['dir'])
                     continue
